@@ -1402,24 +1402,35 @@ func (l *Lowerer) typeAssert(x *ast.TypeAssertExpr) (val *Term, ok *Term, typ ty
 		typ = l.typeOf(x.Type)
 	}
 	if _, isIface := typ.Underlying().(*types.Interface); isIface {
-		// dynamic type implements interface: approximated by the set of repo types implementing it
-		okv := l.tmp("Bool")
-		l.havoc(okv, "Bool")
-		okT := V(okv, "Bool")
-		impl := l.p.implementers(typ)
-		if impl != nil {
-			var alts []*Term
-			for _, it := range impl {
-				alts = append(alts, Eq(App("dyntype", "Int", v), l.p.typeID(it)))
-			}
-			// an implementing dynamic type makes the assertion succeed; nil makes it fail
-			l.assume(Implies(Or(alts...), Or(okT, Eq(v, IntLit(0)))))
-		}
-		l.assume(Implies(Eq(v, IntLit(0)), Not(okT)))
+		// the assertion succeeds iff the value is not nil and its dynamic type implements the interface: a
+		// function of the dynamic type (uninterpreted, true for the repo types known to implement it)
+		okT := l.implementsTerm(v, typ)
 		return Ite(okT, v, IntLit(0)), okT, typ
 	}
 	okT := And(Not(Eq(v, IntLit(0))), Eq(App("dyntype", "Int", v), l.p.typeID(typ)))
 	return l.unbox(v, typ), okT, typ
+}
+
+// implementsTerm: x != nil && impl_<I>(dyntype(x)).
+func (l *Lowerer) implementsTerm(v *Term, iface types.Type) *Term {
+	name := "impl." + sanitizeFile(types.TypeString(iface, func(*types.Package) string { return "" }))
+	if !l.p.implFuns[name] {
+		if l.p.implFuns == nil {
+			l.p.implFuns = map[string]bool{}
+		}
+		l.p.implFuns[name] = true
+		l.p.reg.Fun(name, []string{"Int"}, "Bool")
+	}
+	dt := App("dyntype", "Int", v)
+	impl := l.p.implementers(iface)
+	if impl != nil && !l.spec {
+		var alts []*Term
+		for _, it := range impl {
+			alts = append(alts, Eq(dt, l.p.typeID(it)))
+		}
+		l.assume(Implies(Or(alts...), App(name, "Bool", dt)))
+	}
+	return And(Not(Eq(v, IntLit(0))), App(name, "Bool", dt))
 }
 
 func (l *Lowerer) specType(e ast.Expr) types.Type {
